@@ -37,11 +37,15 @@ Ltac kind_facts :=
          end.
 Ltac kind_tac := cbn; first [ reflexivity | assumption | congruence | (eapply resok_kind; eassumption)
                             | (kind_facts; cbn in *; first [assumption | congruence | (symmetry; assumption)]) ].
+Ltac name_tac := cbn; first [ assumption | (eapply resok_named; eassumption) | (eapply named_ok_pname; [eassumption | eassumption])
+                            | (apply named_ok_prim; first [reflexivity | assumption])
+                            | (let tn := fresh "tn" in let Hn := fresh "Hn" in intros tn Hn; cbn in *; first [discriminate Hn | congruence | (inversion Hn; subst; first [reflexivity | assumption | congruence])]) ].
 Ltac resok_leaf :=
   let a := fresh "a" in let s := fresh "s" in let HPs := fresh "HPs" in let p := fresh "p" in let E := fresh "E" in
   intros a s [-> HPs] p E; cbn in E;
   first [ discriminate E
-        | (inversion E; subst; decompose [and] HPs; split; [ first [ (apply valok_nonrec; intros; discriminate) | eauto ] | kind_tac ]) ].
+        | (decompose [and] HPs; match goal with H : resok _ _ |- _ => exact (H _ E) end)
+        | (inversion E; subst; decompose [and] HPs; split; [ first [ (apply valok_nonrec; intros; discriminate) | eauto ] | split; [ kind_tac | name_tac ] ]) ].
 
 Lemma trR_if_chain_map t c comps : trR (if_chain t c (map (if_comp (fun x => ev_eval self x c) (fun b => ev_run_block self b c)) comps)).
 Proof.
@@ -65,7 +69,7 @@ Ltac ht known :=
       | |- tr _ (add_var _ _ _) _ => eapply tr_true; apply tr_add_var; [stab2 | ]
       | |- tr _ (add_arr _ _ _) _ => unfold add_arr; eapply tr_true; apply tr_upd_ctx_keepvars; [stab2 | intros ?; repeat split]
       | |- tr _ (store_tree _ _ _) _ => apply tr_store_tree; [stab2 | ]
-      | |- tr _ (copy_array_data _ _ _) _ => apply tr_copy_array_data; stab2
+      | |- tr _ (copy_array_data _ _ _) _ => apply tr_copy_array_data; [stab2 | ]
       | |- tr _ (upd_ctx _ (ctx_with_retval _)) _ => eapply tr_true; apply tr_set_retval; [stab2 | ]
       | |- tr _ (upd_ctx _ _) _ => eapply tr_true; apply tr_upd_ctx_keepvars; [stab2 | intros ?; repeat split]
       | |- tr _ (copy_val _ _) _ => eapply tr_true; apply (proj1 (copy_tr _)); [stab2 | ]
@@ -114,7 +118,7 @@ Ltac evk :=
 
 Ltac wr_tac := first [eapply newvar_wr0; eassumption | eapply wr_nonconst_meta; eassumption | eapply wr_ptr_meta; eassumption ].
 Ltac valok_tac := first [apply valok_nonrec; intros; discriminate | assumption | (eapply resok_payload; eassumption) | (cbn [c_val]; eapply resok_payload; eassumption)].
-Ltac fits_tac := first [ assumption | (eapply cellmeta_fits; [eassumption | kind_tac]) | (eapply newvar_fits; [eassumption | kind_tac]) ].
+Ltac fits_tac := first [ assumption | (eapply cellmeta_fits; [eassumption | kind_tac | name_tac]) | (eapply newvar_fits; [eassumption | kind_tac | name_tac]) ].
 Ltac ent :=
   intros; cbv beta in *;
   repeat match goal with H : _ /\ _ |- _ => destruct H end;
@@ -124,12 +128,13 @@ Ltac ent :=
    | (eapply own_from_cellmeta; [eassumption | reflexivity | eassumption | eassumption])
    | (split; [ wr_tac | split; [ valok_tac | fits_tac ] ])
    | (split; [ wr_tac | fits_tac ])
-   | (cbn [c_val c_type]; split; [ valok_tac | kind_tac ])
+   | (cbn [c_val c_type]; split; [ valok_tac | split; [ kind_tac | name_tac ] ])
    | wr_tac
    | (eapply resok_payload; eassumption)
    | (apply nonconst_wr; match goal with H : Forall _ _ |- _ => rewrite Forall_forall in H; apply H; assumption end)
    | (cbn [c_val]; eapply resok_payload; eassumption)
-   | (let p := fresh in let E := fresh in intros p E; cbn in E; inversion E; subst; split; [ match goal with H : forall tn k, _ <> PRec tn k |- _ => apply valok_nonrec; exact H end | kind_tac ]) ].
+   | (eexists; eexists; split; [eassumption | split; [eassumption | (match goal with H : negb (dt_eq _ _) = false |- _ => apply negb_false_iff in H; exact H end)]])
+   | (let p := fresh in let E := fresh in intros p E; cbn in E; inversion E; subst; split; [ match goal with H : forall tn k, _ <> PRec tn k |- _ => apply valok_nonrec; exact H end | split; [ kind_tac | name_tac ] ]) ].
 
 Lemma tr_eval_case (P : st -> Prop) x1 x2 x3 ctx0 : stable P -> tr P (eval_body ped lim self (NArith x1 x2 x3) ctx0) (fun r s => resok r s).
 Proof.
